@@ -40,7 +40,8 @@ ASSUMPTIONS = ["tolerance 1e-9 on 'not more probable than the predecessor' and o
 CFGS = [dict(fam=f, ne=ne, avoid=True, width=w, **cut) for f in ms.FAMS for ne in (False, True) for w in (None, 1)
         for cut in ({"max_dist": 1.5}, {"min_prob_norm": 0.3, "max_dist": 2.5})] + \
        [dict(fam=f, ne=True, avoid=True, width=2, max_dist=2.5, obs_noise_ne=2.0) for f in ms.FAMS] + \
-       [dict(fam=f, ne=True, avoid=True, width=2, max_dist=5.0, max_dist_init=1.0, obs_noise_ne=2.0) for f in ("S", "D")]
+       [dict(fam=f, ne=True, avoid=True, width=2, max_dist=5.0, max_dist_init=1.0, obs_noise_ne=2.0) for f in ("S", "D")] + \
+       [dict(fam=f, ne=True, avoid=True, width=w, max_dist=2.5, maxnb=1) for f, w in (("S", None), ("D", 1), ("SN", 2))]
 
 
 def space(tier):
